@@ -108,9 +108,10 @@ MutateOriginal(o) ==
     /\ hist' = Append(hist, <<"mutate_original", o, <<>>>>)
 
 CopyEnableFD(o) ==
-    /\ Room /\ objs[o].kind \in {"factor", "cond", "composite"}
+    /\ Room /\ objs[o].kind \in {"factor", "cond", "composite", "lik"}
+    \* (a likelihood called without arguments, L(), is a copy with its own copy of the distribution - also when L is a view)
     /\ objs' = [i \in 1..(Len(objs) + 1) |->
-                  IF i = Len(objs) + 1 THEN [objs[o] EXCEPT !.fd = TRUE, !.origin = o]
+                  IF i = Len(objs) + 1 THEN [objs[o] EXCEPT !.fd = TRUE, !.origin = o, !.view = FALSE]
                   ELSE IF i = o /\ DevFDOnOriginal THEN [objs[i] EXCEPT !.fd = TRUE]
                   ELSE objs[i]]
     /\ hist' = Append(hist, <<"copy_enable_fd", o, <<>>>>)
